@@ -33,6 +33,71 @@ pub struct Prop {
     pub replay: fn(&Args, &mut Out, &Value),
 }
 
+/// Minimise a case whose execution kills the process (or otherwise needs isolation):
+/// the predicate re-executes candidates in child processes (`mmv <prop> --replay f`).
+/// Returns true if the child reproduces `sig` (a `crash:<SIGNAL>` or a violation signature).
+pub fn child_reproduces(prop: &str, case: &Value, sig: &str, timeout_s: u64) -> bool {
+    use std::io::Write;
+    let dir = std::env::temp_dir().join(format!("mmv-min-{}", std::process::id()));
+    let _ = std::fs::create_dir_all(&dir);
+    let cf = dir.join("case.json");
+    let of = dir.join("out.jsonl");
+    let _ = std::fs::remove_file(&of);
+    {
+        let mut f = std::fs::File::create(&cf).expect("tmp case");
+        let _ = f.write_all(serde_json::json!({"case": case}).to_string().as_bytes());
+    }
+    let exe = std::env::current_exe().expect("exe");
+    let mut child = match std::process::Command::new(exe)
+        .arg(prop)
+        .arg("--replay")
+        .arg(&cf)
+        .arg("--out")
+        .arg(&of)
+        .stdout(std::process::Stdio::null())
+        .stderr(std::process::Stdio::null())
+        .spawn()
+    {
+        Ok(c) => c,
+        Err(_) => return false,
+    };
+    let t0 = std::time::Instant::now();
+    let status = loop {
+        match child.try_wait() {
+            Ok(Some(st)) => break Some(st),
+            Ok(None) => {
+                if t0.elapsed().as_secs() > timeout_s {
+                    let _ = child.kill();
+                    let _ = child.wait();
+                    break None;
+                }
+                std::thread::sleep(std::time::Duration::from_millis(2));
+            }
+            Err(_) => break None,
+        }
+    };
+    let Some(status) = status else { return sig == "hang" };
+    if let Some(want) = sig.strip_prefix("crash:") {
+        use std::os::unix::process::ExitStatusExt;
+        let name = match status.signal() {
+            Some(6) => "SIGIOT",
+            Some(11) => "SIGSEGV",
+            Some(7) => "SIGBUS",
+            Some(4) => "SIGILL",
+            Some(8) => "SIGFPE",
+            Some(_) => "SIGOTHER",
+            None => "",
+        };
+        return name == want || (want == "SIGABRT" && name == "SIGIOT");
+    }
+    let txt = std::fs::read_to_string(&of).unwrap_or_default();
+    txt.lines().any(|l| {
+        serde_json::from_str::<Value>(l)
+            .ok()
+            .is_some_and(|v| v.get("ev").and_then(|e| e.as_str()) == Some("violation") && v.get("sig").and_then(|s| s.as_str()) == Some(sig))
+    })
+}
+
 fn table(p: &str) -> Option<Prop> {
     Some(match p {
         "C01" => Prop { meta: c01::meta, run: c01::run, replay: c01::replay },
@@ -63,6 +128,16 @@ pub fn dispatch(p: &str, args: &Args, out: &mut Out) -> bool {
     let Some(prop) = table(p) else { return false };
     if args.extra.contains_key("meta") {
         println!("{}", (prop.meta)(args));
+        std::process::exit(0);
+    }
+    if let Some(path) = args.extra.get("minimise") {
+        // mmv <prop> --minimise <replay file> --sig <sig>: prints the minimised case as one JSON line
+        let txt = std::fs::read_to_string(path).expect("read case file");
+        let v: Value = serde_json::from_str(&txt).expect("case json");
+        let case = v.get("case").cloned().unwrap_or(v);
+        let sig = args.extra.get("sig").cloned().unwrap_or_default();
+        let small = minimise_in_children(p, &case, &sig);
+        println!("{}", serde_json::json!({"case": small}));
         std::process::exit(0);
     }
     if let Some(path) = &args.replay {
@@ -133,4 +208,37 @@ pub fn replay_one<C: Serialize + DeserializeOwned>(
             out.end(0, &fp(&case.to_string()), false)
         }
     }
+}
+
+/// Subprocess-isolated minimisation for cases that carry a generated `prog` (G-AST).
+pub fn minimise_in_children(prop: &str, case: &Value, sig: &str) -> Value {
+    use crate::gens::core::Program;
+    let Some(pv) = case.get("prog") else { return case.clone() };
+    let Ok(prog) = serde_json::from_value::<Program>(pv.clone()) else { return case.clone() };
+    let mk = |p: &Program, base: &Value| {
+        let mut c = base.clone();
+        c["prog"] = serde_json::to_value(p).unwrap();
+        c["src"] = Value::String(p.print());
+        c
+    };
+    if !child_reproduces(prop, case, sig, 60) {
+        return case.clone();
+    }
+    let mut base = case.clone();
+    // fewer samples first
+    if let Some(n) = case.get("n").and_then(|n| n.as_u64()) {
+        for cand in [1u64, 2, 4, 8, 16] {
+            if cand < n {
+                let mut c = base.clone();
+                c["n"] = serde_json::json!(cand);
+                if child_reproduces(prop, &c, sig, 60) {
+                    base = c;
+                    break;
+                }
+            }
+        }
+    }
+    let mut pred = |p: &Program| crate::gens::tycheck::well_typed(p) && child_reproduces(prop, &mk(p, &base), sig, 60);
+    let small = crate::gens::shrink::shrink(&prog, &mut pred, 500);
+    mk(&small, &base)
 }
